@@ -1,13 +1,22 @@
 """C49 — Parmap applies the function to every element exactly once per apply.
-Proof: C49_each_once_per_round holds for every schedule of the small-step model (Xbt/Parmap.v).
-K: the extracted model, run under a random schedule (any interleaving of master/worker atomic steps) completed by
-   round-robin, and the real simgrid::xbt::Parmap<T> (harness/xbt2_parmap_drv.cpp: per-element atomic counters) must
+Proof: C49_each_once_per_round / C49_round_barrier hold for every schedule of the small-step model (Xbt/Parmap.v), where
+   a schedule interleaves the atomic steps of the threads AND spurious returns of their blocking waits (futex_wait,
+   condition variable, yield); C49_single_wait_refuted*: they fail as soon as a wait is not re-checked.
+K: the extracted model, run under a random schedule (steps and spurious wake-ups) completed by round-robin, and the real
+   simgrid::xbt::Parmap<T> (harness/xbt2_parmap_drv.cpp: per-element atomic counters read when apply() returns) must
    report the same thing for the same case: every requested apply() done, every counter equal to 1.
+   Two phases on the real Parmap: (1) wake-up injection: slow elements, a helper thread sends SIGUSR1 (handler without
+   SA_RESTART) to the caller of apply() and to the workers all along, in the three modes; (2) plain runs.
 O: the verified oracle each_once (C49_oracle_is_spec) on the counters of the real Parmap."""
 import json
 import fw
 
 MODES = {0: "posix", 1: "futex", 2: "busy_wait"}
+
+
+def gen_sched(rng, nw, hi):
+    """thread numbers; negative = spurious return of the wait of thread -t-1"""
+    return [rng.randrange(-nw, nw) if rng.random() < 0.3 else rng.randrange(nw) for _ in range(rng.randint(0, hi))]
 
 
 def gen_case(rng, big):
@@ -17,7 +26,16 @@ def gen_case(rng, big):
     hi = 500 if big else 40
     ns = [rng.choice([0, 1, 2, nw - 1, nw, nw + 1, rng.randint(0, hi)]) for _ in range(nr)]
     return {"mode": mode, "nw": nw, "ns": ns, "jitter": rng.choice([0, 0, rng.randint(1, 1000)]),
-            "sched": [rng.randrange(nw) for _ in range(rng.randint(0, 400 if not big else 3000))]}
+            "sched": gen_sched(rng, nw, 400 if not big else 3000)}
+
+
+def gen_inject(rng):
+    """wake-up injection: elements take `us` microseconds, SIGUSR1 every `period` microseconds"""
+    mode = rng.choice([1, 1, 0, 2])
+    nw = rng.choice([2, 3, 3, 4, 5, 8])
+    ns = [rng.choice([1, 2, nw - 1, nw, nw + 1, 2 * nw + 1, rng.randint(1, 3 * nw)]) for _ in range(rng.randint(2, 5))]
+    return {"mode": mode, "nw": nw, "ns": ns, "jitter": rng.randint(0, 1000), "us": rng.choice([500, 1000, 2000]),
+            "period": rng.choice([50, 100, 200, 400]), "sched": gen_sched(rng, nw, 400)}
 
 
 CORPUS = [
@@ -26,22 +44,98 @@ CORPUS = [
     {"mode": 2, "nw": 16, "ns": [15, 16, 17], "jitter": 7, "sched": [0] * 50},
     {"mode": 1, "nw": 1, "ns": [0, 7, 0], "jitter": 0, "sched": [0, 0, 0]},
     {"mode": 0, "nw": 2, "ns": [1, 1, 1, 1], "jitter": 3, "sched": [1] * 30 + [0] * 30},
+    {"mode": 1, "nw": 3, "ns": [5, 0, 3], "jitter": 0,
+     "sched": [1, 1, -2, 1, -2, 2, 0, 0, 0, 2, 2, -3, 1, 0, 0, 2, 1, 0, 0, 0, 0, 0, 0, 0, 0, -1, 0, -1, 1, 1, 0, -2, 2, 0, 0, 1, -1, -3]},
+]
+# the model-side schedules are the shapes of C49_single_wait_refuted (EINTR, 2 threads) and ..._no_spurious (EAGAIN, 3 threads)
+CORPUS_INJECT = [
+    {"mode": 1, "nw": 3, "ns": [3, 3, 5, 1, 7], "jitter": 1, "us": 2000, "period": 200,
+     "sched": [0, 0, 0, 1, 1, 2, 2, 0, 1, 2, 0, 0, 0, 0, 1, 1, 1, 1, 0]},
+    {"mode": 1, "nw": 2, "ns": [2, 2, 2, 2, 3], "jitter": 0, "us": 2000, "period": 200, "sched": [0, 0, 0, 0, 1, 1, 1, 0, 0, 0, 0, -1]},
+    {"mode": 1, "nw": 5, "ns": [5, 12, 4, 20], "jitter": 3, "us": 1000, "period": 100, "sched": [-1, -2, -3, -4, -5] * 8},
+    {"mode": 1, "nw": 8, "ns": [8, 7, 9, 30], "jitter": 5, "us": 1000, "period": 50, "sched": []},
+    {"mode": 0, "nw": 3, "ns": [3, 3, 5, 1, 7], "jitter": 1, "us": 2000, "period": 200, "sched": [0, 0, 0, 0, 1, 1, 1, 0, 0, 0, 0, -1]},
+    {"mode": 2, "nw": 3, "ns": [3, 3, 5, 1, 7], "jitter": 1, "us": 2000, "period": 200, "sched": [0, 0, 0, 0, 1, 1, 1, 0, 0, 0, 0, -1]},
+    {"mode": 0, "nw": 2, "ns": [2, 2, 2], "jitter": 0, "us": 2000, "period": 100, "sched": []},
+    {"mode": 2, "nw": 5, "ns": [5, 12, 4], "jitter": 3, "us": 1000, "period": 100, "sched": []},
 ]
 
 
 def parse(toks):
-    """-> list of (n, counters) or None"""
+    """-> (list of the (n, counters) groups that are complete, whether the line is exactly the announced groups)"""
+    res = []
     try:
-        k, i, res = toks[0], 1, []
+        k, i = toks[0], 1
         for _ in range(k):
             n = toks[i]
-            res.append((n, toks[i + 1:i + 1 + n]))
-            if len(res[-1][1]) != n:
-                return None
+            grp = toks[i + 1:i + 1 + n]
+            if len(grp) != n:
+                return res, False
+            res.append((n, grp))
             i += 1 + n
-        return res if i == len(toks) else None
+        return res, i == len(toks)
     except IndexError:
-        return None
+        return res, False
+
+
+def line_of(c):
+    l = "%d %d %d %s %d" % (c["mode"], c["nw"], len(c["ns"]), " ".join(map(str, c["ns"])), c["jitter"])
+    return l + (" %d %d" % (c["us"], c["period"]) if c.get("us") else "")
+
+
+def describe(c):
+    return "%s mode, %d threads, apply() on vectors of sizes %s%s" % (
+        MODES[c["mode"]], c["nw"], c["ns"],
+        (", elements of %d us, SIGUSR1 to the caller of apply() and to the workers every %d us" % (c["us"], c["period"])) if c.get("us") else "")
+
+
+def phase(ctx, drv, cases, dist, name, timeout, hang):
+    """run the model and the real Parmap on the cases and judge the observations"""
+    model_in = [[c["nw"], len(c["ns"])] + c["ns"] + c["sched"] for c in cases]
+    model = fw.run_model("c49", "run_c49", model_in)
+    lines = [line_of(c) for c in cases]
+    rc, impl, err = fw.run_lines(drv, ["--log=root.thres:critical"], lines, timeout=timeout, env={"C49_HANG_TIMEOUT": str(hang)})
+    failed = False
+    for c, m, il in zip(cases, model, impl):
+        dist[MODES[c["mode"]]] += 1
+        dist["inject" if c.get("us") else "plain"] += 1
+        dist["applies"] += len(c["ns"])
+        dist["elements"] += sum(c["ns"])
+        dist["threads"][str(c["nw"])] = dist["threads"].get(str(c["nw"]), 0) + 1
+        nontriv = c["nw"] >= 2 and max(c["ns"]) >= 2
+        keys = ("mode", "nw", "ns", "jitter") + (("us", "period") if c.get("us") else ())
+        ctx.case(tuple(tuple(c[k]) if k == "ns" else c[k] for k in keys), nontriv,
+                 {"case": {k: c[k] for k in keys}, "impl": il[:120]} if nontriv else None)
+        if il.startswith("HANG"):
+            failed = True
+            ctx.fail("hang", "%s: apply #%s did not return within %d s (the driver's watchdog)" % (describe(c), il.split()[-1], hang), c)
+            continue
+        try:
+            obs, complete = parse([int(t) for t in il.split()])
+        except ValueError:
+            obs, complete = [], False
+        mobs, mcomplete = parse(m)
+        # O: every requested apply() was done and every element processed exactly once
+        bad = None
+        for r, (n, cnt) in enumerate(obs):
+            if any(x != 1 for x in cnt):   # == each_once (C49_oracle_is_spec)
+                j = next(i for i, x in enumerate(cnt) if x != 1)
+                bad = ("element-%s" % ("skipped" if cnt[j] == 0 else "repeated"),
+                       "%s: when apply #%d (on %d elements) returned, element %d had been processed %d time(s) (expected exactly 1); "
+                       "counters %s" % (describe(c), r, n, j, cnt[j], cnt))
+                break
+        if bad is None and (not complete or [n for n, _ in obs] != c["ns"]):
+            bad = ("applies-not-done", "%s: the driver reports %s" % (describe(c), il[:200]))
+        if bad:
+            failed = True
+            ctx.fail(bad[0], bad[1], c)
+        elif (mobs, mcomplete) != (obs, complete):
+            ctx.mismatch("correspondence Parmap.v / parmap.hpp", "case %s: model %s, implementation %s" % (line_of(c), str(mobs)[:200], il[:200]), c)
+    if rc != 0 or (len(impl) != len(cases) and not failed):
+        k = min(len(impl), len(cases) - 1)
+        ctx.fail("hang-or-crash", "xbt2_parmap_drv (%s phase) ended with rc=%d (124 = timeout: an apply() never returned) on case '%s' "
+                 "after %d/%d cases: %s" % (name, rc, lines[k], len(impl), len(cases), err[-300:]), cases[k])
+    return failed
 
 
 def run(ctx):
@@ -49,54 +143,33 @@ def run(ctx):
     ctx.prove()
     drv = fw.build_harness("xbt2_parmap_drv", extra=["-std=gnu++20"])
     if ctx.replay:
-        cases = [json.load(open(ctx.replay))["case"]]
+        inj = [c for c in [json.load(open(ctx.replay))["case"]] if c.get("us")]
+        cases = [c for c in [json.load(open(ctx.replay))["case"]] if not c.get("us")]
     else:
+        inj = CORPUS_INJECT + [gen_inject(ctx.rng) for _ in range(ctx.n(40, 600))]
         cases = CORPUS + [gen_case(ctx.rng, False) for _ in range(ctx.n(500, 6000))] + [gen_case(ctx.rng, True) for _ in range(ctx.n(60, 1500))]
-    ctx.cov["rule"] = ("vectors of 0..500 elements (boundary sizes 0, 1, 2, workers-1, workers, workers+1) x 1..16 threads x "
-                       "{posix, futex, busy_wait} x 1..4 successive apply() on one Parmap, some elements made slower (yield); model "
-                       "side: a random schedule of 0..3000 thread steps then round-robin; non-trivial = at least 2 threads and one "
-                       "vector with >= 2 elements; distinct = distinct (mode, threads, sizes, jitter)")
-    model_in = [[c["nw"], len(c["ns"])] + c["ns"] + c["sched"] for c in cases]
-    model = fw.run_model("c49", "run_c49", model_in)
-    lines = ["%d %d %d %s %d" % (c["mode"], c["nw"], len(c["ns"]), " ".join(map(str, c["ns"])), c["jitter"]) for c in cases]
-    rc, impl, err = fw.run_lines(drv, ["--log=root.thres:critical"], lines, timeout=ctx.n(1800, 5400))
-    dist = {"posix": 0, "futex": 0, "busy_wait": 0, "applies": 0, "elements": 0, "threads": {}}
-    if rc != 0 or len(impl) != len(cases):
-        k = min(len(impl), len(cases) - 1)
-        ctx.fail("hang-or-crash", "xbt2_parmap_drv ended with rc=%d (124 = timeout: an apply() never returned) on case %s after %d/%d cases: %s"
-                 % (rc, lines[k], len(impl), len(cases), err[-300:]), cases[k])
-    for c, m, il in zip(cases, model, impl):
-        obs = parse([int(t) for t in il.split()])
-        mobs = parse(m)
-        dist[MODES[c["mode"]]] += 1
-        dist["applies"] += len(c["ns"])
-        dist["elements"] += sum(c["ns"])
-        dist["threads"][str(c["nw"])] = dist["threads"].get(str(c["nw"]), 0) + 1
-        nontriv = c["nw"] >= 2 and max(c["ns"]) >= 2
-        ctx.case((c["mode"], c["nw"], tuple(c["ns"]), c["jitter"]), nontriv,
-                 {"case": {k: c[k] for k in ("mode", "nw", "ns", "jitter")}, "impl": il[:120]} if nontriv else None)
-        # O: every requested apply() was done and every element processed exactly once
-        bad = None
-        if obs is None or [n for n, _ in obs] != c["ns"]:
-            bad = ("applies-not-done", "expected apply() on vectors of sizes %s, the driver reports %s" % (c["ns"], il[:200]))
-        else:
-            for r, (n, cnt) in enumerate(obs):
-                if any(x != 1 for x in cnt):   # == each_once (C49_oracle_is_spec)
-                    j = next(i for i, x in enumerate(cnt) if x != 1)
-                    bad = ("element-%s" % ("skipped" if cnt[j] == 0 else "repeated"),
-                           "apply #%d on %d elements with %d threads (%s): element %d was processed %d times"
-                           % (r, n, c["nw"], MODES[c["mode"]], j, cnt[j]))
-                    break
-        if bad:
-            ctx.fail(bad[0], bad[1], c)
-        elif mobs != obs:
-            ctx.mismatch("correspondence Parmap.v / parmap.hpp", "case %s: model %s, implementation %s" % (lines[cases.index(c)], str(mobs)[:200], il[:200]), c)
+    ctx.cov["rule"] = ("plain phase: vectors of 0..500 elements (boundary sizes 0, 1, 2, workers-1, workers, workers+1) x 1..16 threads x "
+                       "{posix, futex, busy_wait} x 1..4 successive apply() on one Parmap, some elements made slower (yield); injection "
+                       "phase: 2..8 threads x 2..5 successive apply() on 1..3*threads elements of 0.5-4 ms each x the three modes (half "
+                       "futex), SIGUSR1 (no SA_RESTART) sent every 50-400 us to the thread calling apply() and to the worker threads, "
+                       "counters read when apply() returns; model side: a random schedule of 0..3000 events (thread steps, 30% of them "
+                       "possibly spurious returns of a wait) then round-robin; non-trivial = at least 2 threads and one vector with >= 2 "
+                       "elements; distinct = distinct (mode, threads, sizes, jitter[, element time, signal period])")
+    dist = {"posix": 0, "futex": 0, "busy_wait": 0, "inject": 0, "plain": 0, "applies": 0, "elements": 0, "threads": {}}
+    failed = False
+    if inj:
+        failed = phase(ctx, drv, inj, dist, "injection", ctx.n(900, 3600), 60)
+    if cases and not (failed and ctx.tier == "quick"):
+        phase(ctx, drv, cases, dist, "plain", ctx.n(1800, 5400), 120)
     ctx.cov["input_distribution"] = dist
     ctx.assumptions += [
-        "sequentially consistent atomics: relaxed-memory reorderings (fetch_add uses memory_order_relaxed) and lost futex wake-ups are "
-        "not modelled; waiting (futex, condition variable, yield loop) is modelled as 'proceed only when the condition holds'",
-        "the user function only touches its own element; Parmap destruction and thread creation are not modelled",
-        "the real schedules are whatever the OS produces on this machine; the theorem, not the runs, covers all interleavings",
+        "sequentially consistent atomics: relaxed-memory reorderings (fetch_add uses memory_order_relaxed) are not modelled; a wait "
+        "(futex, condition variable, yield loop) is 'load, test, block, and when the blocking call returns -- for any reason, at any "
+        "time -- whatever the code does next'; lost wake-ups (a wait that never returns) are a liveness matter, outside the model",
+        "the user function only touches its own element (the driver's also counts started elements); Parmap destruction and thread "
+        "creation are not modelled",
+        "the real schedules are whatever the OS produces on this machine (plus the injected signals); the theorem, not the runs, "
+        "covers all interleavings",
     ]
 
 
@@ -104,15 +177,25 @@ META = {
     "level": "proof",
     "claimed": True,
     "text": "Coq theorem C49_each_once_per_round: in the small-step interleaving model of parmap.hpp (shared common_index with "
-            "fetch_add, thread_counter, work_round; master and workers as program counters; one shared access or one function "
-            "application per step), for every schedule, any number of workers and any sequence of apply() calls, the multiset of "
-            "indices processed by each completed apply() is exactly {0..n-1} (C49_counters_all_one: all per-element counters are 1); "
-            "C49_round_barrier and C49_rounds_in_order cover repeated applies. The real Parmap<T> is run with per-element atomic "
-            "counters on 0..500 elements x 1..16 threads x {posix, futex, busy_wait} x repeated applies and judged by the verified "
-            "oracle; the extracted model under random schedules must report the same.",
-    "note": "Assumes sequentially consistent atomics and reliable wake-ups (named in the evidence): weak-memory behaviours and futex "
-            "lost wake-ups cannot be shown by this model. The tie to the source is by observation only (counters, number of applies); "
-            "a hang of the real Parmap is reported as a failure through the driver timeout.",
-    "technique": "Coq proof (inductive invariant over an interleaving semantics, multiset/permutation reasoning) + runs of the real "
-                 "thread pool under the verified oracle + extracted-model correspondence",
+            "fetch_add, thread_counter, work_round; master and workers as program counters; one shared access, one function "
+            "application or one return of a blocking wait per step), for every schedule -- any interleaving of thread steps AND of "
+            "spurious returns of the blocking waits (master_wait/worker_wait are load+test, block, re-test as in the source, not atomic "
+            "awaits; FUTEX_WAIT's EAGAIN and EINTR are events of the scheduler) --, any number of workers and any sequence of apply() "
+            "calls, the multiset of indices processed by each completed apply() is exactly {0..n-1} (C49_counters_all_one: all "
+            "per-element counters are 1); C49_round_barrier, C49_rounds_in_order and C49_spurious_wakeups_harmless cover repeated "
+            "applies; C49_single_wait_refuted / _no_spurious / C49_round_barrier_single_(worker_)wait_refuted show that the theorems "
+            "fail for a wait that is not re-checked (witness schedules = the replay shapes: EINTR with 2 threads, EAGAIN with 3). The "
+            "real Parmap<T> is run with per-element atomic counters read when apply() returns, (1) with slow elements while a helper "
+            "thread sends SIGUSR1 (handler without SA_RESTART) every 50-400 us to the caller of apply() and to the workers, 2..8 threads "
+            "x {posix, futex, busy_wait}, (2) on 0..500 elements x 1..16 threads x the three modes x repeated applies; both are judged "
+            "by the verified oracle and the extracted model under random schedules (with spurious events) must report the same.",
+    "note": "Assumes sequentially consistent atomics (named in the evidence): weak-memory behaviours cannot be shown by this model; "
+            "lost wake-ups are liveness and outside the theorems. The tie to the source is by observation only (counters, number of "
+            "applies); a hang of the real Parmap is reported as a failure through the driver's per-case watchdog / timeout; after a "
+            "violating apply() the driver stops without destroying the Parmap. Mutants: master_wait `if` instead of `while` (seed "
+            "C49-a), worker_wait `if`, dropped `common_index = 0`, `index + 1 < length`, non-atomic fetch_add fire; seq_cst fetch_add "
+            "and a `for`-loop master_wait stay quiet (corpus/C49/mutants.list).",
+    "technique": "Coq proof (inductive invariant over an interleaving semantics with spurious wake-ups, multiset/permutation "
+                 "reasoning, refutation witnesses by vm_compute) + runs of the real thread pool under signal injection judged by the "
+                 "verified oracle + extracted-model correspondence",
 }
